@@ -424,6 +424,7 @@ def rule_frame_and_typestate(ctx, rules=('R06.f', 'R06.s', 'R06.r', 'R06.c')):
             ref = None
             problems = {'R06.f': [], 'R06.s': [], 'R06.r': [], 'R06.c': []}
             nsp = 0
+            asserts = []
             for spaces in space_valuations():
                 nsp += 1
                 tag = ','.join('%s=%s' % (k, v[0]) for k, v in sorted(spaces.items()))
@@ -436,7 +437,10 @@ def rule_frame_and_typestate(ctx, rules=('R06.f', 'R06.s', 'R06.r', 'R06.c')):
                     if ip is None:   # the call raised
                         e = r
                         if e.exc == 'AssertionError':
-                            continue  # documented refusals (rank>1) are not history dependent
+                            # a documented refusal (rank>1) is raised whatever space the arrays are in; one that appears
+                            # only for some combinations of spaces is judged after the loop
+                            asserts.append((tag, e))
+                            continue
                         problems['R06.r'].append(('%s:%s' % (e.exc, (e.msg or '')[:60]),
                                                   'with %s the call raises %s (%s) at %s' % (tag, e.exc, e.msg, e.loc)))
                         continue
@@ -493,6 +497,11 @@ def rule_frame_and_typestate(ctx, rules=('R06.f', 'R06.s', 'R06.r', 'R06.c')):
                             base = v.base if isinstance(v, View) else v
                             if isinstance(base, Arr) and not base.fresh:
                                 problems['R06.c'].append(('alias', 'table value is a view of %s' % base.origin))
+            if asserts and len({t_ for t_, _ in asserts}) < nsp:
+                t_, e = asserts[0]
+                problems['R06.r'].append(('AssertionError:space-dependent',
+                                          'with %s the call raises AssertionError (%s) at %s although it returns for other '
+                                          'combinations of spaces' % (t_, e.msg, e.loc)))
             for rid, probs in problems.items():
                 und = [p for p in probs if p[0] == 'UNDECIDED']
                 real = [p for p in probs if p[0] != 'UNDECIDED']
